@@ -115,7 +115,9 @@ Items == <<
   \* 55: |windash: '-kw'
   [field |-> <<>>, chain |-> <<<<119, 105, 110, 100, 97, 115, 104>>>>, vals |-> <<SS(<<45, 107, 119>>)>>, single |-> TRUE],
   \* 56: |cased: 'Kw'
-  [field |-> <<>>, chain |-> <<<<99, 97, 115, 101, 100>>>>, vals |-> <<SS(<<75, 119>>)>>, single |-> TRUE]
+  [field |-> <<>>, chain |-> <<<<99, 97, 115, 101, 100>>>>, vals |-> <<SS(<<75, 119>>)>>, single |-> TRUE],
+  \* 57: h6|hour|gte: 22
+  [field |-> <<104, 54>>, chain |-> <<<<104, 111, 117, 114>>, <<103, 116, 101>>>>, vals |-> <<SN(22, 1)>>, single |-> TRUE]
 >>
 KwLists == <<
   <<SS(<<102, 111, 111>>), SS(<<98, 97, 42, 114>>)>>,
